@@ -166,10 +166,14 @@ fn gen(four: bool, c: &mut Chooser) -> Case {
             // options 3..=11: one port / the blockages on two layers, holding shape kind a (rectangle, polygon,
             // path) on the first layer and kind b on the second - every pair of kinds
             // option 12: three ports, two of them on the same net (they stay separate ports)
-            let pv = c.cost(13, "ports");
+            // option 13: a port without any geometry between two ordinary ones (`AbstractPort::new(net)`)
+            let pv = c.cost(14, "ports");
             tags.push(["ports:1-on-1-layer", "ports:0", "ports:2-second-on-2-layers", "ports:kind-pair"][pv.min(3)]);
             if pv == 12 {
                 tags.push("ports:two-on-one-net");
+            }
+            if pv == 13 {
+                tags.push("ports:one-without-geometry");
             }
             let bv = c.cost(12, "blockages");
             tags.push(["blockages:1-layer", "blockages:0", "blockages:2-layers", "blockages:kind-pair"][bv.min(3)]);
@@ -193,6 +197,7 @@ fn gen(four: bool, c: &mut Chooser) -> Case {
                     let again = SPort { net: "A".into(), shapes: vec![(1, vec![SGeom::Rect((60, 70), (80, 75))])] };
                     vec![port1, port2, again]
                 }
+                13 => vec![port1, SPort { net: "vdd".into(), shapes: vec![] }, port2],
                 v => vec![SPort { net: "kp".into(), shapes: pair(v) }],
             };
             let b1 = (1usize, vec![SGeom::Rect((60, 60), (90, 80))]);
@@ -527,7 +532,7 @@ impl CaseDriver for C14 {
     fn describe(&self, tier: Tier) -> Describe {
         Describe {
             rule: format!(
-                "{} cells (or none at all) forming EVERY DAG (every subset of the edges i -> j, i < j, each edge an instance) listed in EVERY order; the last cell with layout / layout+abstract / abstract-only views or no view at all (a placeholder cell) (all free); costed (deviation bound {}): units Nano/Micro/Angstrom, abstract view on the other cells, each instance's orientation (8) and offset (incl. 2e9), a second placement with angle Some(0), the layout's shape set (default: 7 shapes of all three kinds with and without nets interleaved over 2 layers x 2 purposes; none; one rectangle; all on one layer/purpose with a reversed-corner rectangle; clockwise polygon + negative rectangle; rectangles given by every pair of opposite corners, a degenerate rectangle, an explicitly closed polygon and a path returning to its start; four-vertex polygons: an axis-parallel rectangle in both windings, a parallelogram, a right trapezoid; shapes on a third layer whose purposes are numbered 20 / 256 / 300 / -5, the message additionally drawing on its undeclared purpose 0), annotations 1/0/2, abstract ports 1/0/2 (second port on two layers) or one port over two layers holding each of the 9 pairs of shape kinds (rectangle, polygon, path), or three ports two of which share a net, blockages on 1/0/2 layers or the same 9 kind pairs, outline rectangle / L, layout and abstract views named differently from their cell. Each case is checked raw->proto->raw (fresh and original Layers) and proto->raw->proto (message built independently by the harness). Non-trivial = has an instance or an abstract.",
+                "{} cells (or none at all) forming EVERY DAG (every subset of the edges i -> j, i < j, each edge an instance) listed in EVERY order; the last cell with layout / layout+abstract / abstract-only views or no view at all (a placeholder cell) (all free); costed (deviation bound {}): units Nano/Micro/Angstrom, abstract view on the other cells, each instance's orientation (8) and offset (incl. 2e9), a second placement with angle Some(0), the layout's shape set (default: 7 shapes of all three kinds with and without nets interleaved over 2 layers x 2 purposes; none; one rectangle; all on one layer/purpose with a reversed-corner rectangle; clockwise polygon + negative rectangle; rectangles given by every pair of opposite corners, a degenerate rectangle, an explicitly closed polygon and a path returning to its start; four-vertex polygons: an axis-parallel rectangle in both windings, a parallelogram, a right trapezoid; shapes on a third layer whose purposes are numbered 20 / 256 / 300 / -5, the message additionally drawing on its undeclared purpose 0), annotations 1/0/2, abstract ports 1/0/2 (second port on two layers) or one port over two layers holding each of the 9 pairs of shape kinds (rectangle, polygon, path), or three ports two of which share a net, or three ports the middle one without any geometry, blockages on 1/0/2 layers or the same 9 kind pairs, outline rectangle / L, layout and abstract views named differently from their cell. Each case is checked raw->proto->raw (fresh and original Layers) and proto->raw->proto (message built independently by the harness). Non-trivial = has an instance or an abstract.",
                 if self.four { "4".to_string() } else { "1..3".to_string() },
                 self.bound(tier)
             ),
@@ -579,7 +584,7 @@ impl CaseDriver for C14 {
             stats,
             &[
                 "cells:0", "cells:1", "cells:2", "cells:3", "views:layout", "views:layout+abstract", "views:abstract", "views:none", "dag:shared-dependency", "dag:chain", "order:not-dependencies-first-or-last", "shapes:interleaved-all-kinds", "shapes:none", "shapes:one-layer-purpose",
-                "shapes:cw-polygon+negative-rect", "shapes:rects-by-every-corner-pair", "shapes:four-vertex-polygons", "shapes:unusual-purpose-numbers", "annotations:0", "annotations:2", "ports:0", "ports:2-second-on-2-layers", "ports:kind-pair", "ports:two-on-one-net", "blockages:0", "blockages:2-layers", "blockages:kind-pair", "views:own-names", "inst:angle-Some(0)+second-placement",
+                "shapes:cw-polygon+negative-rect", "shapes:rects-by-every-corner-pair", "shapes:four-vertex-polygons", "shapes:unusual-purpose-numbers", "annotations:0", "annotations:2", "ports:0", "ports:2-second-on-2-layers", "ports:kind-pair", "ports:two-on-one-net", "ports:one-without-geometry", "blockages:0", "blockages:2-layers", "blockages:kind-pair", "views:own-names", "inst:angle-Some(0)+second-placement",
             ],
         )?;
         require_outcomes(stats, &["ok"])
